@@ -2694,7 +2694,9 @@ class TLSConnection(TLSRecordLayer):
             serverCertChain = None
         srpUsername = None
         serverName = None
-        if clientHello.srp_username:
+        # the user name is proved only by a completed SRP key exchange
+        if clientHello.srp_username and \
+                cipherSuite in CipherSuite.srpAllSuites:
             srpUsername = clientHello.srp_username.decode("utf-8")
         if clientHello.server_name:
             serverName = clientHello.server_name.decode("utf-8")
